@@ -231,4 +231,10 @@ theorem coverage_partial :
     (Gen.shapes.filter (fun s => provedStable s.2)).length = 146 ∧ Gen.shapes.length = 174 := by
   decide +kernel
 
+/-- every registered type's Pack / Unpack was recognised as one of the modelled shapes (regenerated
+    table): the theorems above speak about the code that is there -/
+theorem shapes_recognised :
+    Knx.Gen.shapes.all (fun p => match p.2 with | .unknown _ => false | _ => true) = true := by
+  decide +kernel
+
 end Props.C06
